@@ -98,6 +98,10 @@ func (sm *seatManager) AssignSeats(playerSeatIDs map[string]int) error {
 		playerIDs[playerID] = true
 
 		// check seats
+		if seatID < 0 || seatID >= sm.MaxSeat {
+			return ErrUnavailableSeat
+		}
+
 		if _, exist := seats[seatID]; exist {
 			sm.printState(2, func(tag int) {
 				fmt.Printf("[DEBUG#seatManager#AssignSeats#%d] seatID: %d. Error: %+v\n", tag, seatID, ErrDuplicateSeats)
